@@ -199,6 +199,16 @@ def flatten_guards(gs: List[Guard]) -> List[Guard]:
     stack = list(gs)
     while stack:
         e, pol = stack.pop()
+        # `__debug__` is what makes `assert` run; asserts are read as guards, so the spelled-out
+        # form `if __debug__ and not c: raise AssertionError` is read the same way (__debug__ = True)
+        if isinstance(e, ast.BoolOp) and any(isinstance(v, ast.Name) and v.id == "__debug__" for v in e.values):
+            rest = [v for v in e.values if not (isinstance(v, ast.Name) and v.id == "__debug__")]
+            if isinstance(e.op, ast.And) and rest:
+                e = rest[0] if len(rest) == 1 else ast.BoolOp(op=ast.And(), values=rest)
+            elif isinstance(e.op, ast.And):
+                continue
+        if isinstance(e, ast.Name) and e.id == "__debug__":
+            continue
         if isinstance(e, ast.UnaryOp) and isinstance(e.op, ast.Not):
             stack.append((e.operand, not pol))
         elif isinstance(e, ast.BoolOp) and isinstance(e.op, ast.And) and pol:
@@ -420,3 +430,122 @@ def runs_under(func: ast.AST, node: ast.AST, facts, within: Optional[ast.AST] = 
         if v != pol:
             return False
     return res
+
+
+# ---------------------------------------------------------------- acquire / release paths
+def _count_in(st: ast.AST, is_release) -> int:
+    n = 0
+    stack = [st]
+    while stack:
+        x = stack.pop()
+        if isinstance(x, FUNC + (ast.Lambda, ast.ClassDef)) and x is not st:
+            continue
+        if is_release(x):
+            n += 1
+        stack.extend(ast.iter_child_nodes(x))
+    return n
+
+
+def _exits(stmts: List[ast.stmt], is_release, count: int, depth: int) -> List[Tuple[int, str, ast.AST]]:
+    """Paths through a statement list: (releases seen, how the path leaves, where).
+    kinds: fall, break, continue, return, raise.  Nested loops must be neutral (every way
+    through their body releases nothing) except for the returns inside them."""
+    if depth > 40:
+        raise AnalysisError("release_paths: nesting too deep")
+    paths: List[Tuple[int, ast.AST]] = [(count, None)]      # live paths (count)
+    out: List[Tuple[int, str, ast.AST]] = []
+    for st in stmts:
+        if not paths:
+            break
+        new_live: List[Tuple[int, ast.AST]] = []
+        for c, _ in paths:
+            if isinstance(st, ast.Return):
+                out.append((c + (_count_in(st.value, is_release) if st.value is not None else 0), "return", st))
+            elif isinstance(st, ast.Raise):
+                out.append((c, "raise", st))
+            elif isinstance(st, ast.Break):
+                out.append((c, "break", st))
+            elif isinstance(st, ast.Continue):
+                out.append((c, "continue", st))
+            elif isinstance(st, ast.If):
+                c0 = c + _count_in(st.test, is_release)
+                for br in (st.body, st.orelse):
+                    for e in _exits(br, is_release, c0, depth + 1):
+                        if e[1] == "fall":
+                            new_live.append((e[0], None))
+                        else:
+                            out.append(e)
+            elif isinstance(st, (ast.For, ast.While)):
+                inner = _exits(st.body, is_release, 0, depth + 1)
+                for e in inner:
+                    if e[1] in ("return", "raise"):
+                        out.append((c + e[0], e[1], e[2]))
+                    elif e[0] != 0:
+                        raise AnalysisError("release_paths: a nested loop releases on some of its paths")
+                for e in _exits(st.orelse, is_release, c, depth + 1):
+                    if e[1] == "fall":
+                        new_live.append((e[0], None))
+                    else:
+                        out.append(e)
+                if not st.orelse:
+                    pass
+            elif isinstance(st, ast.Try):
+                alts = [st.body + st.orelse] + [h.body for h in st.handlers]
+                for alt in alts:
+                    for e in _exits(alt + st.finalbody, is_release, c, depth + 1):
+                        if e[1] == "fall":
+                            new_live.append((e[0], None))
+                        else:
+                            out.append(e)
+            elif isinstance(st, ast.With):
+                for e in _exits(st.body, is_release, c, depth + 1):
+                    if e[1] == "fall":
+                        new_live.append((e[0], None))
+                    else:
+                        out.append(e)
+            else:
+                new_live.append((c + _count_in(st, is_release), None))
+        # de-duplicate counts
+        seen = set()
+        paths = []
+        for c, _ in new_live:
+            if c not in seen:
+                seen.add(c)
+                paths.append((c, None))
+    for c, _ in paths:
+        out.append((c, "fall", stmts[-1] if stmts else None))
+    return out
+
+
+def release_paths(func: ast.AST, acquire: ast.AST, is_release) -> List[Tuple[int, str, ast.AST]]:
+    """Every way control can go on after the statement containing `acquire` until the end of
+    the innermost enclosing loop iteration (or of the function): how many release
+    operations it meets and how it ends."""
+    st = stmt_of(acquire)
+    bp = block_path(func, st)
+    # innermost first
+    conts: List[List[ast.stmt]] = []
+    for container, field, blk, idx in reversed(bp):
+        conts.append(blk[idx + 1:])
+        if isinstance(container, (ast.For, ast.While)) and field == "body":
+            break
+        if isinstance(container, FUNC):
+            break
+        if isinstance(container, ast.Try) or isinstance(container, ast.ExceptHandler):
+            raise AnalysisError("release_paths: acquire inside try/except is not handled")
+    live = [0]
+    out: List[Tuple[int, str, ast.AST]] = []
+    for rest in conts:
+        nxt = []
+        for c in live:
+            for e in _exits(rest, is_release, c, 0):
+                if e[1] == "fall":
+                    nxt.append(e[0])
+                else:
+                    out.append(e)
+        live = sorted(set(nxt))
+        if not live:
+            break
+    for c in live:
+        out.append((c, "fall", st))
+    return out
